@@ -1,7 +1,7 @@
 (* Properties/C17.v — ACK bookkeeping, Close once, returned data is a copy. *)
 From Coq Require Import List NArith ZArith Bool.
 Import ListNotations.
-Require Import Mach AuditConsts MsgTypes AuditClient ClientProofs ChkClient ClientAckProofs.
+Require Import Mach AuditConsts MsgTypes AuditClient ClientProofs ChkClient ClientAckProofs ClientSpecProofs.
 Open Scope N_scope.
 
 (* when the kernel acknowledges the pending NoWait requests in order (through any
@@ -73,7 +73,17 @@ Example C17_receive_fault_example :
   (pending s2, rscript w2, result_of o2) = ([], [], ROk) /\ (pending s3, rscript w3, result_of o3) = ([], [], ROk).
 Proof. vm_compute. repeat split. Qed.
 
+(* wherever the checker's reading of a WaitForPendingACKs commits itself (spec_wait: every pending request answered inside
+   the fault model, up to the first kernel error), the model returns that result, leaves that list pending and leaves
+   that much of the script unread: the wait clause of the judge accepts every such run of the model *)
+Theorem C17_wait_clause_accepts_model : forall s todo script er remaining rest,
+  spec_wait script todo = Some (er, remaining, rest) ->
+  let '(s', rest', e) := wait_acks s script todo in
+  pending s' = remaining /\ rest' = rest /\ match e with None => ROk | Some x => RFail x end = er.
+Proof. exact c17_wait_clause_accepts_model. Qed.
+
 Print Assumptions C17_later_close_is_noop.
+Print Assumptions C17_wait_clause_accepts_model.
 Print Assumptions C17_ack_leaves_only_when_delivered.
 Print Assumptions C17_pending_leaves_in_order.
 Print Assumptions C17_unanswered_stays_pending.
